@@ -22,7 +22,11 @@ Ends == <<[v |-> 4, a |-> <<10, 0, 0, 1>>, b |-> <<10, 0, 0, 2>>, pa |-> 40000, 
           [v |-> 4, a |-> <<127, 0, 0, 1>>, b |-> <<127, 0, 0, 1>>, pa |-> 40000, pb |-> 8080],
           [v |-> 6, a |-> Src6, b |-> Src6, pa |-> 8080, pb |-> 50000],
           [v |-> 4, a |-> <<10, 0, 0, 1>>, b |-> <<10, 0, 0, 2>>, pa |-> 5000, pb |-> 5000],
-          [v |-> 4, a |-> <<10, 0, 0, 1>>, b |-> <<10, 0, 0, 2>>, pa |-> 80, pb |-> 40000]>>
+          [v |-> 4, a |-> <<10, 0, 0, 1>>, b |-> <<10, 0, 0, 2>>, pa |-> 80, pb |-> 40000],
+          \* one sender, other destinations (for the TCP pool the destination is not part of the identity): every byte position differs somewhere
+          [v |-> 4, a |-> <<10, 0, 0, 1>>, b |-> <<200, 9, 9, 9>>, pa |-> 40000, pb |-> 80],
+          [v |-> 6, a |-> Src6, b |-> [Dst6 EXCEPT ![1] = 254], pa |-> 50000, pb |-> 8080],
+          [v |-> 6, a |-> Src6, b |-> [i \in 1..16 |-> 255 - Dst6[i]], pa |-> 50001, pb |-> 443]>>
 
 Std == [opts |-> <<[k |-> "mss", v |-> 1460], [k |-> "sok"], [k |-> "ts", val |-> <<0, 0, 1, 44>>, ecr |-> Zero4], [k |-> "nop"], [k |-> "ws", v |-> 7]>>, trail |-> <<>>]
 Pay(n) == [i \in 1..n |-> 65 + (i % 26)]
